@@ -61,12 +61,42 @@ func findRecoverFrame(info *types.Info, f *fn) *recoverFrame {
 		return nil
 	}
 	analyse := func(d *ast.DeferStmt, guard string, first bool) *recoverFrame {
-		lit, ok := d.Call.Fun.(*ast.FuncLit)
-		if !ok {
-			return nil
+		var inner []ast.Stmt
+		// what counts as the error result inside the deferred code: the named result itself in a closure, `*p` in a
+		// named helper that is deferred with `&err` (recover() works there: the helper is the deferred function)
+		isErrTarget := func(e ast.Expr) bool { return errRes != nil && objOf(info, e) == errRes }
+		if lit, ok := d.Call.Fun.(*ast.FuncLit); ok {
+			inner = lit.Body.List
+		} else {
+			cal := callee(info, d.Call)
+			if cal == nil || cal.Pkg() != f.Pkg.Types {
+				return nil
+			}
+			var decl *ast.FuncDecl
+			for _, file := range f.Pkg.Syntax {
+				for _, dd := range file.Decls {
+					if fd, ok := dd.(*ast.FuncDecl); ok && info.Defs[fd.Name] == cal && fd.Body != nil {
+						decl = fd
+					}
+				}
+			}
+			if decl == nil {
+				return nil
+			}
+			var ptrParam *types.Var
+			csig := cal.Type().(*types.Signature)
+			for i, arg := range d.Call.Args {
+				if u, ok := stripParens(arg).(*ast.UnaryExpr); ok && u.Op == token.AND && errRes != nil && objOf(info, u.X) == errRes && i < csig.Params().Len() {
+					ptrParam = csig.Params().At(i)
+				}
+			}
+			inner = decl.Body.List
+			isErrTarget = func(e ast.Expr) bool {
+				st, ok := stripParens(e).(*ast.StarExpr)
+				return ok && ptrParam != nil && objOf(info, st.X) == ptrParam
+			}
 		}
 		fr := &recoverFrame{deferStmt: d, guardedBy: guard, firstStmt: first}
-		inner := lit.Body.List
 		// optional `if !cfg.Debug.PassThroughPanics { … }` wrapper inside the closure
 		if len(inner) == 1 {
 			if ifs, ok := inner[0].(*ast.IfStmt); ok && ifs.Init == nil && mentionsName(ifs.Cond, "PassThroughPanics") {
@@ -112,7 +142,7 @@ func findRecoverFrame(info *types.Info, f *fn) *recoverFrame {
 			for _, s := range stmts {
 				if a, ok := s.(*ast.AssignStmt); ok {
 					for _, l := range a.Lhs {
-						if objOf(info, l) == errRes {
+						if isErrTarget(l) {
 							return true
 						}
 					}
